@@ -470,3 +470,63 @@ def opacity_monitor(case, ob):
     if ob["calls"][1]["result"] != "ok":
         v.append((f"the call that followed on the same link failed: {ob['calls'][1]['result']}", 1))
     return v
+
+
+# ------------------------------------------------------------------ C20 on the modulator links
+def keepalive_cases(r, n):
+    """an S2M / M2S peer completes the handshake asking for some heartbeat and then stays silent: it must be pinged at the
+    ANNOUNCED interval (not sooner, and within two intervals) and, not answering, closed three intervals after the PING"""
+    cases = []
+    for _ in range(n):
+        kind = r.choice(["s2m", "m2s"])
+        cfg = link_cfg(r)
+        cfg.update({"keepalive_ms": r.choice([2000, 3000]), "min_keepalive_ms": r.choice([100, 200]), "secret": "", "settle_ms": 1,
+                    "max_inflight": 10, "connect_timeout_ms": 3600000})
+        req = r.choice([0, 50, 150, 200, 400, 1000, cfg["keepalive_ms"], cfg["keepalive_ms"] + 500])
+        name = "S2M_CONNECT" if kind == "s2m" else "M2S_CONNECT"
+        ops = [{"t": "send", "bytes": sl.frame(name, [("version", 1), ("heartbeat_interval", req)]).hex(), "script": []}]
+        h = cfg["keepalive_ms"] if req == 0 else max(cfg["min_keepalive_ms"], min(cfg["keepalive_ms"], req))
+        step = max(h // 4, 10)
+        for _ in range(4 * 6 + 4):
+            ops.append({"t": "advance", "ms": step})
+        cases.append({"kind": kind, "cfg": cfg, "ops": ops, "hb_expected": h, "req": req})
+    return cases
+
+
+def keepalive_monitor(case, ob):
+    v = []
+    if "ops" not in ob:
+        return [("setup error " + str(ob)[:200], 0)]
+    h = case["hb_expected"]
+    ackname = "S2M_CONNECT_ACK" if case["kind"] == "s2m" else "M2S_CONNECT_ACK"
+    now = 0
+    t_ack = t_ping = t_closed = None
+    announced = None
+    for t, (op, o) in enumerate(zip(case["ops"], ob["ops"])):
+        now += op.get("ms", 0) + case["cfg"]["settle_ms"]
+        for f in o["frames"]:
+            if "undecodable" in f:
+                continue
+            n = sl.frame_name(f)
+            if n == ackname and t_ack is None:
+                t_ack = now
+                announced = sl.frame_get(f, "heartbeat_interval")
+            if n == "PING" and t_ping is None:
+                t_ping = now
+        if o["closed"] and t_closed is None:
+            t_closed = now
+    if t_ack is None:
+        return [("the handshake was not acknowledged", 0)]
+    if announced != h:
+        v.append((f"announced heartbeat {announced} ms, requested {case['req']} clamped to [{case['cfg']['min_keepalive_ms']},{case['cfg']['keepalive_ms']}] is {h}", 0))
+    slack = max(h // 4, 10) + 10
+    if t_ping is None or t_ping - t_ack > 2 * h + slack:
+        v.append((f"silent link (announced heartbeat {announced} ms) was not pinged within two intervals (first PING after {None if t_ping is None else t_ping - t_ack} ms)", 0))
+    elif t_ping - t_ack < h - 5:
+        v.append((f"PING after {t_ping - t_ack} ms, sooner than the announced {announced} ms", 0))
+    if t_ping is not None:
+        if t_closed is None or t_closed - t_ping > 3 * h + slack:
+            v.append((f"PING unanswered but the link was not closed three intervals later (closed after {None if t_closed is None else t_closed - t_ping} ms)", 0))
+        elif t_closed - t_ping < 3 * h - slack:
+            v.append((f"link closed {t_closed - t_ping} ms after the PING, sooner than three intervals of {announced} ms", 0))
+    return v
